@@ -1,11 +1,735 @@
-/- Hand-written executable model (tie B): Fit.  Core Lean only — no Mathlib import in this file. -/
+/- Hand-written executable model (tie B): Fit — `gstools.covmodel.fit.fit_variogram` and the parameter
+   setters of `covmodel/base.py` it drives (`var`, `len_scale`, `nugget`, `anis`, optional arguments, each
+   "store, then `check_arg_bounds`").  Core Lean only — no Mathlib import in this file.
+
+   What is modelled (same order of effects and errors as the code):
+     `prePara`           = `_pre_para`      fixed values, deselection, sill bookkeeping and its error cases
+     `checkVario`        = `_check_vario`   isotropic / directional decision, its two errors
+     `preInitGuess`      = `_pre_init_guess`
+     `setWeights`        = `_set_weights`
+     `initCurveFitPara`  = `_init_curve_fit_para` + `_init_guess` + `default_arg_from_bounds`
+     `curveState/curveOut` = the closure built by `_get_curve` (state effect / returned values)
+     `postFitting`       = `_post_fitting`
+     `r2Score`           = `_r2_score`
+   The optimiser is NOT modelled: `fit` takes an arbitrary finite list of evaluation points (`script`) and an
+   arbitrary `popt`; `scipy.optimize.curve_fit` is replaced by exactly that in the correspondence harness.
+
+   The model class enters through `Cfg`: bounds, `rescale`, the variance factor `fac len_scale opt`
+   (`var = var_raw * var_factor()`, constant 1 except for the TPL models) and the normalised correlation
+   `corr len_scale opt r` (`variogram r = var - var * correlation r + nugget`); both are uninterpreted
+   functions for the theorems and concrete rational functions in the driver. -/
 import GSV.Proto
 open Lean GSV GSV.Proto GSV.Transc
 namespace GSV.Model.Fit
 
+/-- canonical error kinds; every one is a `ValueError` in Python -/
+inductive Err where
+  /-- `check_arg_bounds`: "<arg> needs to be >= / > / <= / < …" -/
+  | bounds
+  /-- `set_len_anis`: "anisotropy-ratios needs to be > 0" -/
+  | anisNonPos
+  /-- "fit: unknown parameter in selection" -/
+  | unknownPar
+  /-- "fit: sill out of bounds." -/
+  | sillBounds
+  /-- "fit: if sill is fixed and variance deselected, the set variance should be less than the given sill." -/
+  | varGtSill
+  /-- "fit: if sill is fixed and nugget deselected, the set nugget should be less than the given sill." -/
+  | nugGtSill
+  /-- "fit: method needs to be either 'trf' or 'dogbox'" -/
+  | method
+  /-- "CovModel.fit_variogram: Wrong number of empirical variograms!" -/
+  | nData
+  /-- "CovModel.fit_variogram: lat-lon models don't support anisotropy." -/
+  | latlonDir
+  /-- "fit_variogram: unknown def. guess" -/
+  | guessDefault
+  /-- "fit_variogram: unknown init guess" -/
+  | guessName
+  /-- inputs outside the modelled domain (infinite values written into the model) -/
+  | unmodelled
+  deriving DecidableEq, Repr, Inhabited
+
+def Err.toString : Err → String
+  | .bounds => "bounds" | .anisNonPos => "anisNonPos" | .unknownPar => "unknownPar"
+  | .sillBounds => "sillBounds" | .varGtSill => "varGtSill" | .nugGtSill => "nugGtSill"
+  | .method => "method" | .nData => "nData" | .latlonDir => "latlonDir"
+  | .guessDefault => "guessDefault" | .guessName => "guessName" | .unmodelled => "unmodelled"
+
+/-- a bound value: a number or ∓inf -/
+inductive Ext (α : Type) where
+  | ninf
+  | fin (x : α)
+  | pinf
+  deriving Repr, Inhabited
+
+/-- an interval with open/closed flags (`"oo"`, `"oc"`, `"co"`, `"cc"`; two-element bounds mean `"cc"`) -/
+structure Bnd (α : Type) where
+  lo : Ext α
+  hi : Ext α
+  loC : Bool
+  hiC : Bool
+  deriving Repr, Inhabited
+
+/-- what a concrete `CovModel` object contributes that the fit does not change -/
+structure Cfg (α : Type) where
+  /-- `model.dim` (3 for a lat-lon model) -/
+  dim : Nat
+  latlon : Bool
+  rescale : α
+  varB : Bnd α
+  lenB : Bnd α
+  nugB : Bnd α
+  anisB : Bnd α
+  /-- bounds of the optional arguments, in the order of `model.opt_arg` -/
+  optB : List (Bnd α)
+  /-- `var_factor()` as a function of `len_scale` and the optional arguments -/
+  fac : α → List α → α
+  /-- `correlation(r)` as a function of `len_scale`, the optional arguments and `r` -/
+  corr : α → List α → α → α
+
+/-- the mutable parameter state of the model object as the fit sees it -/
+structure St (α : Type) where
+  /-- `model._var` -/
+  varRaw : α
+  len : α
+  nug : α
+  anis : List α
+  opt : List α
+  deriving Repr, Inhabited
+
+/-- names in `**para_select` -/
+inductive Par where
+  | var | len | nug
+  | opt (i : Nat)
+  /-- a name that is not in `model.arg_bounds` -/
+  | unknown
+  deriving DecidableEq, Repr, Inhabited
+
+/-- value given for a name in `**para_select`: a bool, or a number to be fixed -/
+inductive Sel (α : Type) where
+  | flag (b : Bool)
+  | fix (v : α)
+  deriving Repr
+
+/-- which parameters are fitted (`para` dictionary of the code) -/
+structure Para where
+  var : Bool
+  len : Bool
+  nug : Bool
+  opt : List Bool
+  deriving DecidableEq, Repr, Inhabited
+
+/-- the `sill` argument: `None`/`True`, `False` (= current sill), a number -/
+inductive SillArg (α : Type) where
+  | none
+  | current
+  | value (v : α)
+  deriving Repr
+
+/-- the `anis` argument: a bool, or values to be fixed -/
+inductive AnisArg (α : Type) where
+  | flag (b : Bool)
+  | fix (a : List α)
+  deriving Repr
+
+/-- the `init_guess` argument after `{"default": …}` normalisation -/
+structure IG (α : Type) where
+  /-- 0 = "default", 1 = "current", anything else = an unknown string -/
+  dflt : Nat
+  /-- a key that is neither an isotropic argument nor "anis" -/
+  badName : Bool
+  var : Option α
+  len : Option α
+  nug : Option α
+  anis : Option (List α)
+  opt : List (Option α)
+  deriving Repr
+
+structure Guess (α : Type) where
+  var : α
+  len : α
+  nug : α
+  anis : List α
+  opt : List α
+  deriving Repr
+
+/-- the `weights` argument -/
+inductive Weights (α : Type) where
+  | none
+  | inv
+  /-- a callable, given by its values on the (tiled, converted) `x_data` -/
+  | callable (w : List α)
+  | arr (w : List α)
+  deriving Repr
+
+/-- the returned `fit_para` dictionary -/
+structure Dict (α : Type) where
+  var : α
+  len : α
+  nug : α
+  opt : List α
+  /-- present for directional data only -/
+  anis : Option (List α)
+  deriving Repr, Inhabited
+
+/-- result of `_pre_para` -/
+structure Pre (α : Type) where
+  st : St α
+  para : Para
+  /-- `some s` iff `constrain_sill` -/
+  sill : Option α
+  anisFit : Bool
+  deriving Repr
+
+section defs
+variable {α : Type} [Arith α] [DecidableLT α] [DecidableLE α]
+
+def zero : α := ((0 : Nat) : α)
+def one : α := ((1 : Nat) : α)
+
+def absA (x : α) : α := if x < (zero : α) then -x else x
+
+/-- `v < e` -/
+def ltE (v : α) : Ext α → Bool
+  | .ninf => false | .fin x => decide (v < x) | .pinf => true
+/-- `v ≤ e` -/
+def leE (v : α) : Ext α → Bool
+  | .ninf => false | .fin x => decide (v ≤ x) | .pinf => true
+/-- `e < v` -/
+def eLt (e : Ext α) (v : α) : Bool :=
+  match e with | .ninf => true | .fin x => decide (x < v) | .pinf => false
+/-- `e ≤ v` -/
+def eLe (e : Ext α) (v : α) : Bool :=
+  match e with | .ninf => true | .fin x => decide (x ≤ v) | .pinf => false
+
+/-- `check_arg_in_bounds(...) == 0` for a scalar -/
+def inBnd (b : Bnd α) (v : α) : Bool :=
+  (if b.loC then !(ltE v b.lo) else !(leE v b.lo)) &&
+  (if b.hiC then !(eLt b.hi v) else !(eLe b.hi v))
+
+/-- float addition on bound values; `none` = nan -/
+def Ext.add : Ext α → Ext α → Option (Ext α)
+  | .fin a, .fin b => some (.fin (a + b))
+  | .ninf, .pinf => none
+  | .pinf, .ninf => none
+  | .ninf, _ => some .ninf
+  | _, .ninf => some .ninf
+  | .pinf, _ => some .pinf
+  | _, .pinf => some .pinf
+
+/-- `default_arg_from_bounds([lo, hi])` (for `lo < hi`, `lo ≠ +inf`, `hi ≠ -inf`) -/
+def defaultFromBounds (lo hi : Ext α) : α :=
+  match lo, hi with
+  | .fin a, .fin b => (a + b) / ((2 : Nat) : α)
+  | .fin a, _ => a + one
+  | _, .fin b => b - one
+  | _, _ => zero
+
+/-- `model.var` -/
+def St.var (c : Cfg α) (s : St α) : α := s.varRaw * c.fac s.len s.opt
+
+def optsIn : List (Bnd α) → List α → Bool
+  | b :: bs, v :: vs => inBnd b v && optsIn bs vs
+  | _, _ => true
+
+/-- `check_arg_bounds` does not raise -/
+def checkAll (c : Cfg α) (s : St α) : Bool :=
+  inBnd c.varB (s.var c) && inBnd c.lenB s.len && inBnd c.nugB s.nug &&
+  s.anis.all (inBnd c.anisB) && optsIn c.optB s.opt
+
+def chk (c : Cfg α) (s : St α) : Except Err (St α) :=
+  if checkAll c s then .ok s else .error .bounds
+
+/-- `set_anis(dim, anis)`: cut to `dim - 1` entries, fill up *in front* with ones -/
+def padAnis (dim : Nat) (a : List α) : List α :=
+  let t := a.take (dim - 1)
+  List.replicate (dim - 1 - t.length) (one : α) ++ t
+
+/-- `out_anis[:n] = 1.0` -/
+def forceOnes : Nat → List α → List α
+  | 0, l => l
+  | _, [] => []
+  | n + 1, _ :: l => (one : α) :: forceOnes n l
+
+/-- `set_len_anis(dim, len_scale, anis, latlon)` for a scalar `len_scale`, followed by `check_arg_bounds` -/
+def setLenAnis (c : Cfg α) (s : St α) (len : α) (anis : List α) : Except Err (St α) :=
+  let p := padAnis c.dim anis
+  if p.all (fun x => decide ((zero : α) < x)) then
+    chk c { s with len := len, anis := if c.latlon then forceOnes 2 p else p }
+  else .error .anisNonPos
+
+/-- `model.len_scale = v` -/
+def setLen (c : Cfg α) (s : St α) (v : α) : Except Err (St α) := setLenAnis c s v s.anis
+/-- `model.anis = a` -/
+def setAnis (c : Cfg α) (s : St α) (a : List α) : Except Err (St α) := setLenAnis c s s.len a
+/-- `model.nugget = v` -/
+def setNug (c : Cfg α) (s : St α) (v : α) : Except Err (St α) := chk c { s with nug := v }
+/-- `model.var = v`  (`_var = v / var_factor()`) -/
+def setVar (c : Cfg α) (s : St α) (v : α) : Except Err (St α) :=
+  chk c { s with varRaw := v / c.fac s.len s.opt }
+/-- `setattr(model, opt_i, v)` -/
+def setOpt (c : Cfg α) (s : St α) (i : Nat) (v : α) : Except Err (St α) :=
+  chk c { s with opt := s.opt.set i v }
+
+def validPar (s : St α) : Par → Bool
+  | .var => true | .len => true | .nug => true
+  | .opt i => decide (i < s.opt.length)
+  | .unknown => false
+
+/-- `setattr(model, par, v)` for `par ≠ "var"` -/
+def setPar (c : Cfg α) (s : St α) : Par → α → Except Err (St α)
+  | .var, v => setVar c s v
+  | .len, v => setLen c s v
+  | .nug, v => setNug c s v
+  | .opt i, v => setOpt c s i v
+  | .unknown, _ => .error .unknownPar
+
+/-- first loop of `_pre_para`: fixed values are written into the model in keyword order, `var` is remembered
+    and written last -/
+def preLoop (c : Cfg α) : St α → Option α → List (Par × Sel α) → Except Err (St α × Option α)
+  | s, vl, [] => .ok (s, vl)
+  | s, vl, (p, sel) :: rest =>
+    if validPar s p then
+      match sel with
+      | .flag _ => preLoop c s vl rest
+      | .fix v =>
+        match p with
+        | .var => preLoop c s (some v) rest
+        | _ => (setPar c s p v).bind fun s' => preLoop c s' vl rest
+    else .error .unknownPar
+
+/-- the names left in `para_select` after "remove those that were set to True" -/
+def deselected (sel : List (Par × Sel α)) : List Par :=
+  sel.filterMap fun ps => match ps.2 with
+    | .flag true => none
+    | _ => some ps.1
+
+def Para.desel (p : Para) : Par → Para
+  | .var => { p with var := false }
+  | .len => { p with len := false }
+  | .nug => { p with nug := false }
+  | .opt i => { p with opt := p.opt.set i false }
+  | .unknown => p
+
+/-- `sill_low <= sill <= sill_up` with float semantics of `inf` / `nan` -/
+def sillInRange (c : Cfg α) (sill : α) : Bool :=
+  match Ext.add c.varB.lo c.nugB.lo, Ext.add c.varB.hi c.nugB.hi with
+  | some lo, some hi => eLe lo sill && leE sill hi
+  | _, _ => false
+
+/-- the sill part of `_pre_para`; returns the new state and the enlarged deselection list -/
+def preSill (c : Cfg α) (s : St α) (des : List Par) (sill : α) : Except Err (St α × List Par) :=
+  if sillInRange c sill then
+    if des.contains .var && des.contains .nug then
+      if sill < s.var c then
+        match c.nugB.lo with
+        | .fin nl => (setNug c s nl).bind fun s1 => (setVar c s1 (sill - s1.nug)).bind fun s2 => .ok (s2, des)
+        | _ => .error .unmodelled
+      else (setNug c s (sill - s.var c)).bind fun s1 => .ok (s1, des)
+    else if des.contains .var then
+      if sill < s.var c then .error .varGtSill
+      else (setNug c s (sill - s.var c)).bind fun s1 => .ok (s1, des ++ [.nug])
+    else if des.contains .nug then
+      if sill < s.nug then .error .nugGtSill
+      else (setVar c s (sill - s.nug)).bind fun s1 => .ok (s1, des ++ [.var])
+    else .ok (s, des ++ [.nug])
+  else .error .sillBounds
+
+/-- `_pre_para` -/
+def prePara (c : Cfg α) (s0 : St α) (sel : List (Par × Sel α)) (sill : SillArg α) (anis : AnisArg α) :
+    Except Err (Pre α) :=
+  (preLoop c s0 none sel).bind fun (s1, vl) =>
+  (match vl with | some v => setVar c s1 v | none => .ok s1).bind fun s2 =>
+  let des := deselected sel
+  let sillV : Option α := match sill with
+    | .none => none
+    | .current => some (s2.var c + s2.nug)
+    | .value v => some v
+  (match sillV with
+    | some sl => preSill c s2 des sl
+    | none => .ok (s2, des)).bind fun (s3, des') =>
+  let para := des'.foldl Para.desel { var := true, len := true, nug := true, opt := s3.opt.map fun _ => true }
+  match anis with
+  | .flag b => .ok { st := s3, para := para, sill := sillV, anisFit := b }
+  | .fix a => (setAnis c s3 a).bind fun s4 => .ok { st := s4, para := para, sill := sillV, anisFit := false }
+
+/-- `_check_vario`: is the data directional?  (`nx`, `ny` = sizes of `x_data`, `y_data`) -/
+def checkVario (c : Cfg α) (nx ny : Nat) : Except Err Bool :=
+  if decide (1 < c.dim) && nx * c.dim == ny then
+    if c.latlon then .error .latlonDir else .ok true
+  else if nx != ny then .error .nData
+  else .ok false
+
+def tile (n : Nat) (x : List α) : List α := (List.replicate n x).flatten
+
+def sumL (l : List α) : α := l.foldl (· + ·) zero
+def meanL (l : List α) : α := sumL l / ((l.length : Nat) : α)
+
+/-- `_pre_init_guess` (`mx`, `my` = means of the prepared x and y data) -/
+def preInitGuess (c : Cfg α) (s : St α) (ig : IG α) (mx my : α) : Except Err (Guess α) :=
+  if ig.dflt ≥ 2 then .error .guessDefault
+  else if ig.badName then .error .guessName
+  else
+    let d := ig.dflt == 0
+    let anis0 : List α := match ig.anis with
+      | some a => a
+      | none => if d then [defaultFromBounds c.anisB.lo c.anisB.hi] else s.anis
+    .ok {
+      len := ig.len.getD (if d then mx * c.rescale else s.len)
+      var := ig.var.getD (if d then my else s.var c)
+      nug := ig.nug.getD (if d then my else s.nug)
+      anis := padAnis c.dim anis0
+      opt := (List.range s.opt.length).map fun i =>
+        ((ig.opt.getD i none).getD
+          (if d then (match c.optB[i]? with
+                      | some b => defaultFromBounds b.lo b.hi
+                      | none => zero)
+           else s.opt.getD i zero)) }
+
+/-- `_set_weights`: the `sigma` handed to `curve_fit` (`x` = prepared x data) -/
+def setWeights (c : Cfg α) (dir : Bool) (x : List α) : Weights α → Option (List α)
+  | .none => none
+  | .inv => some (x.map fun v => one + v)
+  | .callable w => some (w.map fun v => one / v)
+  | .arr w =>
+    let w' := if dir && w.length * c.dim == x.length then tile c.dim w else w
+    some (w'.map fun v => one / v)
+
+/-- `_init_guess` -/
+def initGuess (lo hi : Ext α) (d : α) : α :=
+  if eLt lo d && ltE d hi then d else defaultFromBounds lo hi
+
+/-- the optional-argument loop of `_init_curve_fit_para` -/
+def initOpts : List Bool → List (Bnd α) → List α → List (Ext α × Ext α × α)
+  | true :: fs, b :: bs, g :: gs => (b.lo, b.hi, initGuess b.lo b.hi g) :: initOpts fs bs gs
+  | false :: fs, _ :: bs, _ :: gs => initOpts fs bs gs
+  | _, _, _ => []
+
+/-- `_init_curve_fit_para`: (low, top, p0) per fitted parameter, in the order of the argument tuple -/
+def initCurveFitPara (c : Cfg α) (pa : Para) (g : Guess α) (sill : Option α) (anisFit : Bool) :
+    List (Ext α × Ext α × α) :=
+  (if pa.var then
+    let top : Ext α := match sill with | some sl => .fin sl | none => c.varB.hi
+    [(c.varB.lo, top, initGuess c.varB.lo top g.var)] else []) ++
+  (if pa.len then [(c.lenB.lo, c.lenB.hi, initGuess c.lenB.lo c.lenB.hi g.len)] else []) ++
+  (if pa.nug then [(c.nugB.lo, c.nugB.hi, initGuess c.nugB.lo c.nugB.hi g.nug)] else []) ++
+  initOpts pa.opt c.optB g.opt ++
+  (if anisFit then
+    (List.range (c.dim - 1)).map fun i =>
+      (c.anisB.lo, c.anisB.hi, initGuess c.anisB.lo c.anisB.hi (g.anis.getD i zero))
+   else [])
+
+/-! ### the curve closure -/
+
+/-- position of `len_scale` / `nugget` / the first optional argument in the argument tuple (`para_skip`) -/
+def Para.iLen (p : Para) : Nat := if p.var then 1 else 0
+def Para.iNug (p : Para) : Nat := p.iLen + (if p.len then 1 else 0)
+def Para.iOpt (p : Para) : Nat := p.iNug + (if p.nug then 1 else 0)
+/-- number of isotropic parameters fitted -/
+def Para.nIso (p : Para) : Nat := p.iOpt + (p.opt.filter id).length
+
+/-- `for opt in model.opt_arg: if para[opt]: setattr(model, opt, args[para_skip + opt_skip]); opt_skip += 1`
+    (`as` = the argument tuple from `para_skip` on) -/
+def setOpts (c : Cfg α) : St α → List Bool → Nat → List α → Except Err (St α)
+  | s, [], _, _ => .ok s
+  | s, false :: fs, i, as => setOpts c s fs (i + 1) as
+  | s, true :: fs, i, as => (setOpt c s i (as.headD zero)).bind fun s' => setOpts c s' fs (i + 1) as.tail
+
+/-- `args[1 - model.dim:]` -/
+def lastAnis (c : Cfg α) (args : List α) : List α := args.drop (args.length - (c.dim - 1))
+
+/-- does `curve` take the punishment branch (`return np.full_like(x, np.inf)`)? -/
+def punished (c : Cfg α) (pa : Para) (sill : Option α) (args : List α) : Bool :=
+  pa.var && (match sill with
+    | some sl => !inBnd c.nugB (sl - args.getD 0 zero)
+    | none => false)
+
+/-- state effect of one call `curve(x, *args)`; `none` = punishment branch (model untouched) -/
+def curveState (c : Cfg α) (pa : Para) (sill : Option α) (anisFit dir : Bool) (varSave : α)
+    (s : St α) (args : List α) : Except Err (Option (St α)) :=
+  if punished c pa sill args then .ok none else
+  (if pa.var then
+    match sill with
+    | some sl => setNug c s (sl - args.getD 0 zero)
+    | none => .ok s
+   else .ok s).bind fun s1 =>
+  (if pa.len then setLen c s1 (args.getD pa.iLen zero) else .ok s1).bind fun s2 =>
+  (if pa.nug then setNug c s2 (args.getD pa.iNug zero) else .ok s2).bind fun s3 =>
+  (setOpts c s3 pa.opt 0 (args.drop pa.iOpt)).bind fun s4 =>
+  (setVar c s4 (if pa.var then args.getD 0 zero else varSave)).bind fun s5 =>
+  (if dir && anisFit then setAnis c s5 (lastAnis c args) else .ok s5).bind fun s6 =>
+  .ok (some s6)
+
+/-- `model.variogram(r)` -/
+def vario (c : Cfg α) (s : St α) (r : α) : α :=
+  s.var c - s.var c * c.corr s.len s.opt r + s.nug
+
+/-- `model.vario_axis(r, axis)` -/
+def varioAxis (c : Cfg α) (s : St α) (axis : Nat) (r : α) : α :=
+  if axis = 0 then vario c s r else vario c s (absA r / s.anis.getD (axis - 1) one)
+
+/-- the values `curve` returns from model state `s` (`x` = prepared x data), also `_r2_score`'s curve -/
+def curveOut (c : Cfg α) (dir : Bool) (x : List α) (s : St α) : List α :=
+  if dir then
+    let xs := x.take (x.length / c.dim)
+    (List.range c.dim).flatMap fun i => xs.map (varioAxis c s i)
+  else x.map (vario c s)
+
+/-- the scripted optimiser: call the curve at every point of the list, in order -/
+def runScript (c : Cfg α) (pa : Para) (sill : Option α) (anisFit dir : Bool) (varSave : α) (x : List α) :
+    St α → List (List α) → Except Err (St α × List (Option (List α)))
+  | s, [] => .ok (s, [])
+  | s, a :: rest =>
+    (curveState c pa sill anisFit dir varSave s a).bind fun r =>
+      match r with
+      | none => (runScript c pa sill anisFit dir varSave x s rest).bind fun (s', o) => .ok (s', none :: o)
+      | some s1 =>
+        (runScript c pa sill anisFit dir varSave x s1 rest).bind fun (s', o) =>
+          .ok (s', some (curveOut c dir x s1) :: o)
+
+/-! ### `_post_fitting` -/
+
+/-- the optional-argument loop of `_post_fitting`; returns the state and the dictionary values -/
+def postOpts (c : Cfg α) : St α → List Bool → Nat → List α → Except Err (St α × List α)
+  | s, [], _, _ => .ok (s, [])
+  | s, false :: fs, i, as =>
+    (postOpts c s fs (i + 1) as).bind fun (s', d) => .ok (s', s.opt.getD i zero :: d)
+  | s, true :: fs, i, as =>
+    (setOpt c s i (as.headD zero)).bind fun s1 =>
+      (postOpts c s1 fs (i + 1) as.tail).bind fun (s', d) => .ok (s', as.headD zero :: d)
+
+/-- `_post_fitting` -/
+def postFitting (c : Cfg α) (pa : Para) (anisFit dir : Bool) (s : St α) (popt : List α) :
+    Except Err (St α × Dict α) :=
+  let dVar := if pa.var then popt.getD 0 zero else s.var c
+  (if pa.len then setLen c s (popt.getD pa.iLen zero) else .ok s).bind fun s1 =>
+  let dLen := if pa.len then popt.getD pa.iLen zero else s1.len
+  (if pa.nug then setNug c s1 (popt.getD pa.iNug zero) else .ok s1).bind fun s2 =>
+  let dNug := if pa.nug then popt.getD pa.iNug zero else s2.nug
+  (postOpts c s2 pa.opt 0 (popt.drop pa.iOpt)).bind fun (s3, dOpt) =>
+  (if dir && anisFit then setAnis c s3 (lastAnis c popt) else .ok s3).bind fun s4 =>
+  let dAnis := if dir then some s4.anis else none
+  (if pa.var then setVar c s4 (popt.getD 0 zero) else .ok s4).bind fun s5 =>
+  .ok (s5, { var := dVar, len := dLen, nug := dNug, opt := dOpt, anis := dAnis })
+
+/-! ### `_r2_score` -/
+
+def ssRes (y v : List α) : α := sumL ((List.zip y v).map fun p => (p.1 - p.2) * (p.1 - p.2))
+def ssTot (y : List α) : α := let m := meanL y; sumL (y.map fun a => (a - m) * (a - m))
+/-- `1 - ss_res / ss_tot` (meaningful for `ss_tot ≠ 0`) -/
+def r2Score (c : Cfg α) (dir : Bool) (x y : List α) (s : St α) : α :=
+  one - ssRes y (curveOut c dir x s) / ssTot y
+
+/-! ### `fit_variogram` with a scripted optimiser -/
+
+structure Result (α : Type) where
+  st : St α
+  dict : Dict α
+  para : Para
+  sill : Option α
+  dir : Bool
+  anisFit : Bool
+  /-- (low, top, p0) handed to `curve_fit` -/
+  bp : List (Ext α × Ext α × α)
+  sigma : Option (List α)
+  /-- prepared x data handed to `curve_fit` -/
+  xdata : List α
+  /-- curve values per script point (`none` = all `inf`) -/
+  outs : List (Option (List α))
+  r2 : α
+  deriving Repr
+
+/-- `fit_variogram(model, x, y, anis, sill, init_guess, weights, method, …, **sel)` where `curve_fit` evaluates
+    the curve at the points of `script` and returns `popt`.  `x` is the raw bin-centre array (for a lat-lon
+    model: already converted to chordal distances). -/
+def fit (c : Cfg α) (s0 : St α) (sel : List (Par × Sel α)) (sill : SillArg α) (anis : AnisArg α)
+    (ig : IG α) (w : Weights α) (methodOk : Bool) (x y : List α)
+    (script : List (List α)) (popt : List α) : Except Err (Result α) :=
+  (prePara c s0 sel sill anis).bind fun pre =>
+  if !methodOk then .error .method else
+  (checkVario c x.length y.length).bind fun dir =>
+  let xd := if dir then tile c.dim x else x
+  (preInitGuess c pre.st ig (meanL xd) (meanL y)).bind fun g =>
+  let anisFit := pre.anisFit && dir
+  let sigma := setWeights c dir xd w
+  let bp := initCurveFitPara c pre.para g pre.sill anisFit
+  let varSave := pre.st.var c
+  (runScript c pre.para pre.sill anisFit dir varSave xd pre.st script).bind fun (s1, outs) =>
+  (postFitting c pre.para anisFit dir s1 popt).bind fun (s2, d) =>
+  .ok { st := s2, dict := d, para := pre.para, sill := pre.sill, dir := dir, anisFit := anisFit,
+        bp := bp, sigma := sigma, xdata := xd, outs := outs, r2 := r2Score c dir xd y s2 }
+
+end defs
+
+/-! ### `Rat` instance and line protocol -/
+
+instance instArithRatFit : Arith Rat := {}
+
+def maxR (a b : Rat) : Rat := if a < b then b else a
+
+/-- concrete class tables of the driver.  `kind`:
+    * `"plain"`   `fac = 1`, correlation not modelled (state comparison only)
+    * `"linear"`  `fac = 1`, `cor(h) = max(1 - h, 0)` (gstools `Linear`)
+    * `"tent"`    `fac = 1`, `cor(h) = max(1 - opt₀·h, 0)` (harness class with optional arguments)
+    * `"factent"` `fac = opt₁ · len_scale / rescale`, same correlation (harness class with a TPL-like variance factor)
+    * `"tplhalf"` `fac = (opt[ilow] + len_scale)/rescale − opt[ilow]/rescale` (TPL models at `hurst = 1/2`),
+                  correlation not modelled -/
+def classFac (kind : String) (rescale : Rat) (ilow : Nat) : Rat → List Rat → Rat :=
+  match kind with
+  | "factent" => fun len opt => opt.getD 1 0 * (len / rescale)
+  | "tplhalf" => fun len opt => (opt.getD ilow 0 + len) / rescale - opt.getD ilow 0 / rescale
+  | _ => fun _ _ => 1
+
+def classCorr (kind : String) (rescale : Rat) : Rat → List Rat → Rat → Rat :=
+  match kind with
+  | "linear" => fun len _ r => maxR (1 - absA r / (len / rescale)) 0
+  | "tent" => fun len opt r => maxR (1 - opt.getD 0 0 * (absA r / (len / rescale))) 0
+  | "factent" => fun len opt r => maxR (1 - opt.getD 0 0 * (absA r / (len / rescale))) 0
+  | _ => fun _ _ _ => 0
+
+def jExt (v : Json) : Except String (Ext Rat) :=
+  match v with
+  | Json.str "ninf" => .ok .ninf
+  | Json.str "pinf" => .ok .pinf
+  | _ => do let r ← jsonToRat v; return .fin r
+
+/-- `[lo, hi, "oo"]` -/
+def jBnd (v : Json) : Except String (Bnd Rat) := do
+  let a ← v.getArr?
+  if a.size != 3 then throw "bnd" else
+  let lo ← jExt a[0]!
+  let hi ← jExt a[1]!
+  let t ← a[2]!.getStr?
+  return { lo := lo, hi := hi, loC := t.startsWith "c", hiC := t.endsWith "c" }
+
+def jRatList (v : Json) : Except String (List Rat) := do
+  let a ← v.getArr?
+  let l ← a.mapM jsonToRat
+  return l.toList
+
+def jOptRat (v : Json) : Except String (Option Rat) :=
+  match v with
+  | Json.null => .ok none
+  | _ => do let r ← jsonToRat v; return some r
+
+def field (j : Json) (k : String) : Except String Json := j.getObjVal? k
+
+def jPar (v : Json) : Except String Par :=
+  match v with
+  | Json.str "var" => .ok .var
+  | Json.str "len" => .ok .len
+  | Json.str "nug" => .ok .nug
+  | Json.str _ => .ok .unknown
+  | _ => do let n ← v.getNat?; return .opt n
+
+def jSel (v : Json) : Except String (Sel Rat) :=
+  match v with
+  | Json.bool b => .ok (.flag b)
+  | _ => do let r ← jsonToRat v; return .fix r
+
+def eExt : Ext Rat → Json
+  | .ninf => Json.str "ninf"
+  | .pinf => Json.str "pinf"
+  | .fin x => rat x
+
+def eOptList : Option (List Rat) → Json
+  | none => Json.null
+  | some l => rl l
+
+def eSt (c : Cfg Rat) (s : St Rat) : Json :=
+  Json.mkObj [("var", rat (s.var c)), ("var_raw", rat s.varRaw), ("len", rat s.len), ("nug", rat s.nug),
+    ("anis", rl s.anis), ("opt", rl s.opt)]
+
+def runFit (j : Json) : Except String Json := do
+  let kind ← getStr j "kind"
+  let dim ← getNat j "dim"
+  let latlon ← getBool j "latlon"
+  let rescale ← getRat j "rescale"
+  let ilow ← getNat j "ilow"
+  let bj ← field j "bounds"
+  let varB ← jBnd (← field bj "var")
+  let lenB ← jBnd (← field bj "len")
+  let nugB ← jBnd (← field bj "nug")
+  let anisB ← jBnd (← field bj "anis")
+  let optB ← (← (← field bj "opt").getArr?).mapM jBnd
+  let c : Cfg Rat := {
+    dim := dim
+    latlon := latlon
+    rescale := rescale
+    varB := varB
+    lenB := lenB
+    nugB := nugB
+    anisB := anisB
+    optB := optB.toList
+    fac := classFac kind rescale ilow
+    corr := classCorr kind rescale }
+  let sj ← field j "state"
+  let sVarRaw ← getRat sj "var_raw"
+  let sLen ← getRat sj "len"
+  let sNug ← getRat sj "nug"
+  let sAnis ← getRats sj "anis"
+  let sOpt ← getRats sj "opt"
+  let s0 : St Rat := { varRaw := sVarRaw, len := sLen, nug := sNug, anis := sAnis.toList, opt := sOpt.toList }
+  let selA ← (← field j "sel").getArr?
+  let sel ← selA.toList.mapM fun (e : Json) => do
+    let a ← e.getArr?
+    if a.size != 2 then throw "sel" else
+    let p ← jPar a[0]!
+    let s ← jSel a[1]!
+    return (p, s)
+  let sill : SillArg Rat ← match (← field j "sill") with
+    | Json.str "none" => pure SillArg.none
+    | Json.str "current" => pure SillArg.current
+    | v => do let r ← jsonToRat v; pure (SillArg.value r)
+  let anis : AnisArg Rat ← match (← field j "anis") with
+    | Json.bool b => pure (AnisArg.flag b)
+    | v => do let l ← jRatList v; pure (AnisArg.fix l)
+  let gj ← field j "ig"
+  let igAnis : Option (List Rat) ← match (← field gj "anis") with
+    | Json.null => pure none
+    | v => do let l ← jRatList v; pure (some l)
+  let igOpt ← (← (← field gj "opt").getArr?).toList.mapM jOptRat
+  let gDflt ← getNat gj "dflt"
+  let gBad ← getBool gj "bad"
+  let gVar ← jOptRat (← field gj "var")
+  let gLen ← jOptRat (← field gj "len")
+  let gNug ← jOptRat (← field gj "nug")
+  let ig : IG Rat := { dflt := gDflt, badName := gBad, var := gVar, len := gLen, nug := gNug, anis := igAnis, opt := igOpt }
+  let w : Weights Rat ← match (← field j "weights") with
+    | Json.null => pure Weights.none
+    | Json.str _ => pure Weights.inv
+    | v => match v.getObjVal? "call" with
+      | .ok l => do let l ← jRatList l; pure (Weights.callable l)
+      | .error _ => do let l ← jRatList (← field v "arr"); pure (Weights.arr l)
+  let methodOk ← getBool j "method_ok"
+  let x := (← getRats j "x").toList
+  let y := (← getRats j "y").toList
+  let script ← (← (← field j "script").getArr?).toList.mapM jRatList
+  let popt := (← getRats j "popt").toList
+  match fit c s0 sel sill anis ig w methodOk x y script popt with
+  | .error e => return Json.mkObj [("err", Json.str e.toString)]
+  | .ok r =>
+    return Json.mkObj [
+      ("st", eSt c r.st),
+      ("dict", Json.mkObj [("var", rat r.dict.var), ("len", rat r.dict.len), ("nug", rat r.dict.nug),
+        ("opt", rl r.dict.opt), ("anis", eOptList r.dict.anis)]),
+      ("para", Json.arr (#[Json.bool r.para.var, Json.bool r.para.len, Json.bool r.para.nug] ++
+        (r.para.opt.map Json.bool).toArray)),
+      ("dir", Json.bool r.dir), ("anis_fit", Json.bool r.anisFit),
+      ("low", Json.arr (r.bp.map fun t => eExt t.1).toArray),
+      ("top", Json.arr (r.bp.map fun t => eExt t.2.1).toArray),
+      ("p0", rl (r.bp.map fun t => t.2.2)),
+      ("sigma", eOptList r.sigma),
+      ("xdata", rl r.xdata),
+      ("outs", Json.arr (r.outs.map eOptList).toArray),
+      ("r2", rat r.r2),
+      ("ss_tot", rat (ssTot y))]
+
 /-- line-protocol operations of this model; `none` = not one of mine -/
 def ops (op : String) (j : Json) : Option (Except String Json) :=
   match op with
+  | "c10_fit" => some (runFit j)
   | _ => none
 
 end GSV.Model.Fit
